@@ -58,8 +58,32 @@ CPP_FILE = (
 )
 
 
+def multi_value_files():
+    """Tokens that carry SEVERAL values of different kinds for the same use (a definite value from a call site or an
+    assignment, a value that depends on a condition further down, an inconclusive value): which of them a check reports must
+    not depend on the enabled severities - a definite error may get company, it may not be replaced."""
+    c = "static int tab[10];\n"
+    n = 0
+    for use, cond, bad in (("int v = tab[i];", "i == -3", "-1"), ("int v = tab[i];", "i == 12", "10"), ("int v = 1 << i;", "i == 40", "33"),
+                           ("int v = 100 / i;", "i == 0", "0"), ("int v = 100 % i;", "i == 0", "0")):
+        n += 1
+        # definite value from the call site, conditional value from the check further down
+        c += "int mv%d(int i) { %s if (%s) v = 0; return v; }\nint mc%d(void) { return mv%d(%s); }\n" % (n, use, cond, n, n, bad)
+        # definite value on one branch, conditional value from the check further down
+        c += "int mb%d(int i, int c) { if (c) i = %s; %s if (%s) v = 0; return v; }\n" % (n, bad, use, cond)
+    c += "int mp1(int *p) { int v = *p; if (p == 0) v = 0; return v; }\nint mq1(void) { return mp1(0); }\n"
+    c += "int mp2(int *p, int c) { if (c) p = 0; int v = *p; if (!p) v = 1; return v; }\n"
+    cpp = "static int tab[10];\n"
+    for n2, (use, first, second) in enumerate((("return tab[i];", "-2", "-1"), ("return 1 << i;", "40", "33"), ("return 100 / i;", "0", "0")), 1):
+        # inconclusive value (passed to an unknown function, maybe by reference) before a definite value on one branch
+        cpp += "int iv%d(int c) { int i = %s; unknown%d(i); if (c) i = %s; %s }\n" % (n2, first, n2, second, use)
+    return {"multivalue.c": c}, {"multivalue.cpp": cpp}
+
+
 def inputs(tier, seed):
     items = [("snippets.c", {"snippets.c": SNIPPET_FILE}, ["--library=posix", "--inline-suppr"]), ("classes.cpp", {"classes.cpp": CPP_FILE}, [])]
+    mvc, mvcpp = multi_value_files()
+    items += [("multivalue.c", mvc, []), ("multivalue.cpp", mvcpp, [])]
     sdir = os.path.join(vlib.REPO, "samples")
     names = sorted(os.listdir(sdir))
     if tier == "quick":
